@@ -99,7 +99,9 @@ func NewNode(opt Options) (*Node, error) {
 	if opt.Balance == "" {
 		opt.Balance = "1000000000"
 	}
-	if opt.GasPrice == 0 {
+	if opt.GasPrice < 0 {
+		opt.GasPrice = 0 // explicit "free gas"
+	} else if opt.GasPrice == 0 {
 		opt.GasPrice = 1
 	}
 	if opt.ProofType == "" {
